@@ -225,6 +225,20 @@ def judge_body(run, bid, text, body, exp, st, ob, via=""):
                 if disp.get("s") != display_ref(e):
                     sym = "Display of errors[%d]: %r, reference %r" % (i, disp.get("s"), display_ref(e))
                     break
+                for spec, out in (disp.get("specs") or {}).items():
+                    # a caller's width / fill / sign / zero / alternate flags: the text is the reference, possibly padded AS A
+                    # WHOLE to the width (an implementation may honour width through `Formatter::pad`); flags never reach
+                    # the parts (no `+20`, no `000020`, no per-fragment padding)
+                    run.count("displays-under-format-specs")
+                    ref = display_ref(e)
+                    width = int("".join(ch for ch in spec if ch.isdigit()) or 0) if spec not in ("+", "#", "to_string") else 0
+                    fill = "*" if spec.startswith("*") else " "
+                    ok_spec = out == ref or (len(ref) < width and len(out) == width and out.strip(fill) == ref.strip(fill) and ref in out)
+                    if not ok_spec:
+                        sym = "Display of errors[%d] under {:%s}: %r, reference %r" % (i, spec, out, ref)
+                        break
+                if sym:
+                    break
                 if "again" in disp:
                     run.count("displays-after-failed-writes", disp.get("failed_writes", 0))
                     if disp["again"] != display_ref(e):
